@@ -302,6 +302,7 @@ pub fn run(tier: &str) -> i32 {
     progs.extend(multi_var_space());
     progs.extend(lookalike_space());
     progs.extend(crate::c06::int64_space());
+    progs.extend(big_offset_space());
     progs.extend(named_members_space());
     // declarations-only modules (no entry point): structs reachable from variables are emitted and checked all the same
     {
@@ -416,7 +417,7 @@ pub fn run(tier: &str) -> i32 {
     let mut index: BTreeMap<String, (usize, Repr)> = BTreeMap::new();
     for (k, ((i, r), (text, _))) in items.iter().zip(res.iter()).enumerate() {
         let p = &progs[*i];
-        let forced = p.key.starts_with("attr|") || (p.key.starts_with("io-host|") && k % 5 == 0) || (p.key.starts_with("multi-var|") && k % 11 == 0) || p.key.starts_with("s2|vec3<f32>|f32") || p.key.starts_with("s2|f32|vec3<f32>");
+        let forced = p.key.starts_with("attr|") || p.key.starts_with("big-offset|") || (p.key.starts_with("io-host|") && k % 5 == 0) || (p.key.starts_with("multi-var|") && k % 11 == 0) || p.key.starts_with("s2|vec3<f32>|f32") || p.key.starts_with("s2|f32|vec3<f32>");
         if !(k % stride == 0 || (forced && !thorough && *r != Repr::Nalgebra)) {
             continue;
         }
